@@ -96,7 +96,23 @@ static int fingerprint_dump(uint64_t seed, int nseeds) {
 	return 0;
 }
 
+// the known-findings mechanism: a listed (oracle, site) is counted and reported, an unlisted one is a violation
+static int known_selftest() {
+	Plan p; p.profile = "C99"; p.clients = 1; Step s; s.op = "selftest_violation"; s.lit = "C99.deliberate"; p.steps.push_back(s);
+	g_known.clear();
+	RunResult a = run_in_child(&p, "C99", "quick", 1, 30);
+	KnownFinding k; k.property = "C99"; k.oracle = "C99.deliberate"; k.site = "selftest-site"; k.text = " property=C99 oracle=C99.deliberate site=selftest-site deliberate"; g_known.push_back(k);
+	RunResult b = run_in_child(&p, "C99", "quick", 1, 30);
+	g_known[0].fixed = true;
+	RunResult c = run_in_child(&p, "C99", "quick", 1, 30);
+	g_known.clear();
+	bool ok = a.status == 2 && a.oracle == "C99.deliberate" && b.status == 1 && b.known_lines.size() == 1 && c.status == 2;
+	printf("known-findings selftest: unlisted -> status %d, listed -> status %d with %zu KNOWN-FINDING line(s), 'fixed:' entry -> status %d : %s\n", a.status, b.status, b.known_lines.size(), c.status, ok ? "ok" : "FAILED");
+	return ok ? 0 : 1;
+}
+
 int selftest_main(const std::string& which, uint64_t seed, int workers) {
+	if (which == "known") return known_selftest();
 	if (which == "oracles") return oracle_selftest(seed);
 	if (which == "determinism") return determinism_selftest(seed, workers > 0 ? workers * 5 : 40);
 	if (which == "fingerprints") return fingerprint_dump(seed, workers > 0 ? workers : 8);
